@@ -154,8 +154,13 @@ class Stepper:
             acc.violation("C04/raises", f"data_received raised {e!r} on well-formed {sym}", case, self.hist[-12:])
             return False
         got = decode_writes(self.log[mark:])
-        got_n = sorted([g[:3] if g[0] == "tx" else g for g in got], key=repr)
-        want_n = sorted([w[:3] if w[0] == "tx" else w for w in want], key=repr)
+        # The property fixes the kind of the answer only for a frame that is accepted ("an ACK when the frame was
+        # accepted"); a frame that is not the next expected one must get exactly one ACK or NAK carrying the next
+        # expected number - which of the two is left open (bellows re-ACKs retransmissions and NAKs the rest).
+        free_kind = fr.kind == "DATA" and fr.frm != before
+        nk = (lambda e: ("tx", "ACK-or-NAK", e[2]) if free_kind and e[1] in ("ACK", "NAK") else e[:3])
+        got_n = sorted([nk(g) if g[0] == "tx" else g for g in got], key=repr)
+        want_n = sorted([nk(w) if w[0] == "tx" else w for w in want], key=repr)
         self.hist.append((sym, "expected", before, "got", got_n))
         acc.ev("frames")
         if fr.kind == "DATA":
@@ -204,9 +209,12 @@ def step_many(st: Stepper, syms, tags, case) -> bool:
     acc = st.acc
     wires, want = [], []
     before = st.ref.rx_seq
+    free = []  # per DATA frame of the read: is the kind of its answer left open (frame not accepted)?
     for sym, tag in zip(syms, tags):
         w, fr = to_frame(sym, tag)
         wires.append(w)
+        if fr.kind == "DATA":
+            free.append(fr.frm != st.ref.rx_seq)
         want += st.ref.receive(fr)
         if fr.kind == "DATA" and fr.frm == (st.ref.rx_seq - 1) % 8 and st.ref.rx_seq == 0:
             pass
@@ -219,6 +227,9 @@ def step_many(st: Stepper, syms, tags, case) -> bool:
     got = decode_writes(st.log[mark:])
     got_tx = [g[:3] for g in got if g[0] == "tx"]
     want_tx = [w[:3] for w in want if w[0] == "tx"]
+    if len(got_tx) == len(want_tx) == len(free):
+        got_tx = [("tx", "ACK-or-NAK", g[2]) if f_ else g for g, f_ in zip(got_tx, free)]
+        want_tx = [("tx", "ACK-or-NAK", w[2]) if f_ else w for w, f_ in zip(want_tx, free)]
     got_up = [g for g in got if g[0].startswith("up")]
     want_up = [w for w in want if w[0].startswith("up")]
     st.hist.append((tuple(syms), "one read, expected from", before, "got", got_tx, got_up))
